@@ -244,30 +244,46 @@ def check_consumer(case):
         r.label("adjoint-wrong(C01)")
         return r
     n = M.shape[1]
-    lam = case["lamda"]
-    # scale the problem so that ||A|| = 1 (conditioning then depends on lamda only: kappa <= 1 + 1/lamda)
     nrm = np.linalg.norm(M, 2)
     if not np.isfinite(nrm) or nrm == 0:
         r.label("zero-operator")
         return r
-    op = (1.0 / nrm) * op
-    M = M / nrm
-    y = A.arr({"k": "g", "shape": list(op.oshape), "dtype": dt, "seed": case["yseed"]})
-    Hn = M.conj().T @ M + lam * np.eye(n)
-    xref = np.linalg.solve(Hn, M.conj().T @ y.ravel())
-    try:
-        with warnings.catch_warnings():
-            warnings.simplefilter("ignore")
-            app = sp_.app.LinearLeastSquares(op, y.copy(), lamda=lam, max_iter=4 * n + 20, tol=0, show_pbar=False)
-            x = app.run()
-    except Exception as e:
-        r.fail("consumer:raises:%s" % sp["op"], "%s: %s" % (type(e).__name__, e))
-        return r
-    err = np.linalg.norm(np.asarray(x).ravel() - xref)
-    ok = err <= 1e-7 * max(np.linalg.norm(xref), 1e-30) + 1e-12 * np.linalg.norm(y)
-    if not ok:
-        r.fail("consumer:wrong-minimiser:%s" % sp["op"], "||x - x_ref|| = %.3e, ||x_ref|| = %.3e, tree %s"
-               % (err, np.linalg.norm(xref), LO.sig(sp)[:800]))
+    # The operator object itself goes to the app (so that ITS .N is what the solver works through); lamda is taken
+    # relative to ||A||^2, so conditioning depends on case["lamda"] only: kappa <= 1 + 1/lamda.
+    tl = 2e-4 if dt in ("complex64", "float32") else 1e-7
+    G = M.conj().T @ M
+    for rnd, (lam, yseed) in enumerate(((case["lamda"] * nrm ** 2, case["yseed"]),
+                                        (2.5 * case["lamda"] * nrm ** 2, case["yseed"] + 1))):
+        y = A.arr({"k": "g", "shape": list(op.oshape), "dtype": dt, "seed": yseed})
+        xref = np.linalg.solve(G + lam * np.eye(n), M.conj().T @ y.ravel().astype(np.complex128))
+        try:
+            with warnings.catch_warnings():
+                warnings.simplefilter("ignore")
+                app = sp_.app.LinearLeastSquares(op, y.copy(), lamda=lam, max_iter=4 * n + 20, tol=0, show_pbar=False)
+                x = app.run()
+        except Exception as e:
+            r.fail("consumer:raises:%s" % sp["op"], "%s: %s" % (type(e).__name__, e))
+            return r
+        err = np.linalg.norm(np.asarray(x).ravel() - xref)
+        ok = err <= tl * max(np.linalg.norm(xref), 1e-30) + 1e-12 * np.linalg.norm(y)
+        if not ok:
+            r.fail("consumer:wrong-minimiser:%s%s" % (sp["op"], "" if rnd == 0 else ":second-solve-same-operator"),
+                   "||x - x_ref|| = %.3e, ||x_ref|| = %.3e, lamda %.4g, tree %s" % (err, np.linalg.norm(xref), lam, LO.sig(sp)[:800]))
+            break
+        # the solve must leave the operator's normal operator what it was: A^H A
+        try:
+            with warnings.catch_warnings():
+                warnings.simplefilter("ignore")
+                Nm = LO.mat(op.N, op.ishape, dt, real_only=True)[0]
+            if Nm.shape != G.shape or not np.linalg.norm(Nm - G) <= (2e-4 if dt in ("complex64", "float32") else 1e-9) * max(np.linalg.norm(M) ** 2, 1e-30):
+                if not any(l["op"] == "NUFFT" and l.get("toeplitz") for l in LO.leaves(sp)):
+                    r.fail("consumer:normal-changed-by-solve:%s" % sp["op"],
+                           "after LinearLeastSquares(A, y, lamda=%.4g).run() A.N differs from A^H A by %.3e (||A||_F^2 = %.3e)"
+                           % (lam, np.linalg.norm(Nm - G) if Nm.shape == G.shape else float("nan"), np.linalg.norm(M) ** 2))
+                    break
+        except Exception as e:
+            r.fail("consumer:normal-raises-after-solve:%s" % sp["op"], "%s: %s" % (type(e).__name__, e))
+            break
     r.nontrivial = not np.allclose(M.conj().T @ M, np.eye(n), atol=1e-6)
     for c in LO.classes(sp):
         r.label(c)
@@ -282,9 +298,67 @@ def st_normal_mri(draw):
     return c
 
 
+# ------------------------------------------------------------------ larger spaces: A.N x vs A^H (A x) on generated vectors
+
+
+def big_failures(sp, dt, pseed):
+    try:
+        op = LO.build(sp)
+    except Exception:
+        return ["unbuildable"]
+    if any(l["op"] == "NUFFT" and l.get("toeplitz") for l in LO.leaves(sp)):
+        return ["unbuildable"]          # the Toeplitz approximation has its own part and tolerance
+    rng = np.random.default_rng(pseed)
+    out = []
+    try:
+        with warnings.catch_warnings():
+            warnings.simplefilter("ignore")
+            Nop = op.N
+            Hop = op.H
+            if list(Nop.ishape) != list(op.ishape) or list(Nop.oshape) != list(op.ishape):
+                return ["normal-shapes"]
+            for _ in range(3):
+                x = (rng.standard_normal(op.ishape) + 1j * rng.standard_normal(op.ishape)).astype(dt)
+                Ax = np.asarray(op(x))
+                ref = np.asarray(Hop(Ax)).astype(np.complex128)
+                y = np.asarray(Nop(x)).astype(np.complex128)
+                if y.shape != ref.shape:
+                    return ["normal-output-shape"]
+                # operands' scale: ||A^H|| ||A x|| is bounded below by the result; use the larger of the two routes
+                sc = max(np.linalg.norm(ref.ravel()), np.linalg.norm(y.ravel()), np.linalg.norm(np.asarray(Ax, dtype=np.complex128).ravel()), 1e-30)
+                if not np.linalg.norm((y - ref).ravel()) <= 10 * tol(dt) * sc:
+                    sc = max(sc, LO.tree_opscale(sp, dt) ** 2 * np.linalg.norm(x.astype(np.complex128).ravel())) if A.prod(op.ishape) * A.prod(op.oshape) <= 40000 else sc
+                if not np.linalg.norm((y - ref).ravel()) <= 10 * tol(dt) * sc:
+                    out.append("normal")
+                    return out
+    except Exception as e:
+        out.append("raises:%s" % type(e.__cause__ or e).__name__)
+    return out
+
+
+def check_big(case):
+    r = R()
+    sp, dt = case["tree"], case["dtype"]
+    fails = [f for f in big_failures(sp, dt, case["pseed"]) if f != "unbuildable"]
+    cl = LO.classes(sp)
+    for c in cl:
+        r.label(c)
+    if fails:
+        small = LO.localize(sp, lambda c: bool([f for f in big_failures(c, dt, case["pseed"]) if f != "unbuildable"]))
+        sf = [f for f in big_failures(small, dt, case["pseed"]) if f != "unbuildable"] or fails
+        for f in sf:
+            r.fail("%s:%s:large" % (f, small["op"]), "smallest failing subtree: %s" % LO.sig(small)[:1200])
+    o, i = LO.shape_of(sp)
+    r.label("in>%d" % (100 if A.prod(i) > 100 else 40 if A.prod(i) > 40 else 0))
+    r.nontrivial = A.prod(i) > 40 and any(c not in LO.COMBINATORS and c not in ("Identity", "Reshape") for c in cl)
+    r.sig = LO.sig(sp)
+    return r
+
+
 PARTS = [
     Part("tree", check_tree, {"quick": 2400, "thorough": 40000}, strategy=st_normal_tree),
     Part("mri", check_tree, {"quick": 300, "thorough": 6000}, strategy=st_normal_mri),
     Part("toeplitz", check_toeplitz, {"quick": 500, "thorough": 10000}, strategy=st_toeplitz),
+    Part("big", check_big, {"quick": 700, "thorough": 16000}, strategy=lambda: LO.st_big_tree(max_depth=1)),
     Part("consumer", check_consumer, {"quick": 600, "thorough": 10000}, strategy=st_consumer),
 ]
